@@ -29,20 +29,25 @@ from common import InfraError
 
 MANIFEST = {
     "text": "Kernel-checked theorems about the model of the C type-string parser (tokenizer next_token, parse_complete, "
-            "parse_sequel) and of the backend's name printer: the parser inverts the printer for every type tree of the "
-            "primitive/pointer/array/struct/union/enum fragment over every context (parse_cname_partial), qualifiers are "
-            "ignored wherever the parser accepts them (qualifiers_ignored), decimal, octal and hex spellings of a length "
-            "denote the same array type (decimal_octal_hex_length), accepted orders of the integer specifiers denote the "
-            "same primitive (spec_order).  The model is tied to the code by running both real parsers (in-line FFI = "
-            "pycparser front end, out-of-line FFI = parse_c_type.c) and the model on grammar-generated and near-miss "
-            "strings over random declaration contexts; the property itself (both reject or same type) is evaluated "
-            "between the two real parsers on every string.",
-    "note": "Partial: the Python side (pycparser + cparser.py) is not modelled, it is only run.  The opcode array with "
-            "back-patching is represented by the declarator data the model returns; that gap is covered by the "
-            "correspondence only.  Function types are covered by correspondence, not by parse_cname_partial. "
-            "Trusted: glibc strtoull, the harness generators/canonicalisers.",
-    "technique": "Lean 4 proof (structural induction over type trees and token lists) + three-way differential "
-                 "correspondence (pycparser front end, parse_c_type.c, Lean model) with constructive classification of known divergences",
+            "parse_sequel of parse_c_type.c) and of the backend's name printer: the parser reads the name printed for every "
+            "type tree of the primitive/pointer/array/struct/union/enum fragment back as that type, over every declaration "
+            "context (parse_cname_partial, typeof_cname_partial); const/volatile are ignored wherever the parser accepts "
+            "them (qualifiers_ignored); the decimal, octal and hex texts of a length are one number token each and denote "
+            "the same number (decimal_octal_hex_length); every order of the short/long/signed/unsigned specifiers gives "
+            "the same result (spec_order); the model's keyword and standard-typename tables are the ones re-extracted from "
+            "the C source on every run and every primitive name the backend prints re-parses to itself "
+            "(keyword_table_matches_source, standard_typenames_match_source, primitive_names_reparse).  The model is tied to "
+            "the code by running both real parsers (in-line FFI = pycparser front end, out-of-line FFI = parse_c_type.c + "
+            "realize_c_type.c) and the model on grammar-generated and near-miss strings over random declaration contexts; "
+            "the property itself (both reject, or the same type) is evaluated between the two real parsers on every string.",
+    "note": "Partial: the Python side (pycparser + cparser.py) is not modelled, only run.  The opcode array with "
+            "back-patching is represented by the declarator data the model returns; that gap and function pointer types "
+            "(outside parse_cname_partial) are covered by the correspondence only.  Not modelled: length*itemsize overflow, "
+            "the 1200-opcode limit, embedded NUL / non-ASCII bytes.  Trusted: glibc strtoull, the harness generators, "
+            "canonicalisers and the constructive classification of known divergences.",
+    "technique": "Lean 4 proof (structural induction over type trees, declarators and token lists; regenerated name tables) + "
+                 "three-way differential correspondence (pycparser front end, parse_c_type.c, Lean model) with constructive "
+                 "classification of known divergences",
 }
 
 RULE = ("type trees over a random declaration context (typedefs incl. array/function-pointer/function typedefs, complete and "
@@ -242,12 +247,12 @@ class Decls:
             nm = "%s%d%s" % (rng.choice(["T", "td", "my"]), i, rng.choice(["", "_t", "_p"]))
             r = rng.random()
             if r < 0.1:       # function typedef
-                t = ("F", [gen_tree(rng, self, 1, arg=True) for _ in range(rng.randint(0, 2))],
-                     gen_tree(rng, self, 1, result=True), False)
+                t = ("F", [gen_tree(rng, self, 1, arg=True, strict=True) for _ in range(rng.randint(0, 2))],
+                     gen_tree(rng, self, 1, result=True, strict=True), False)
             elif r < 0.3:     # array typedef
-                t = ("A", rng.randint(1, 6), gen_tree(rng, self, 1, item=True))
+                t = ("A", rng.randint(1, 6), gen_tree(rng, self, 1, item=True, strict=True))
             else:
-                t = gen_tree(rng, self, 2)
+                t = gen_tree(rng, self, 2, strict=True)
             rt = resolve(self, t)
             if rt == ("S", "_IO_FILE"):
                 # `typedef FILE a; typedef a b;` makes emit_python_code fail an assertion (recompiler.py:278);
@@ -372,14 +377,14 @@ def gen_base(rng, d):
     return ("P", "int")
 
 
-def gen_tree(rng, d, depth, arg=False, result=False, item=False):
+def gen_tree(rng, d, depth, arg=False, result=False, item=False, strict=False):
     """A random type tree with ('T', name) leaves for typedef uses; mostly accepted by the backend."""
     t = gen_base(rng, d)
     n = rng.choice([0, 0, 1, 1, 1, 2, 2, 3]) if depth > 0 else rng.choice([0, 0, 1])
     for _ in range(n):
         rt = resolve_T(d, t)
         r = rng.random()
-        wild = rng.random() < 0.04          # let a few ill-formed trees through
+        wild = rng.random() < 0.04 and not strict         # let a few ill-formed trees through
         if r < 0.5:
             t = ("*", t)
         elif r < 0.8:
@@ -395,8 +400,11 @@ def gen_tree(rng, d, depth, arg=False, result=False, item=False):
                 ell = rng.random() < 0.25
                 args = []
                 for _ in range(rng.choice([0, 1, 1, 2, 3])):
-                    a = gen_tree(rng, d, depth - 1, arg=True)
+                    a = gen_tree(rng, d, depth - 1, arg=True, strict=strict)
                     ra = resolve_T(d, a)
+                    if strict and ra == ("P", "void"):
+                        a = ("*", a)            # `(void, ...)` is not C: never in the cdef itself
+                        ra = resolve_T(d, a)
                     if not wild and not ell and not (ra[0] in "AF" or sized(d, ra)):
                         a = ("*", a)
                     args.append(a)
@@ -680,9 +688,9 @@ def real_ellipsis(ct):
     nm = _cffi_backend.getcname(ct, "&")
     i = nm.index("&")
     if nm[i + 1:i + 3] != ")(":
-        raise InfraError("unexpected function type name %r" % nm)
+        return bool(ct.ellipsis)      # the name position is not where it belongs (C08's subject): best effort
     depth, j = 1, i + 3
-    while depth:
+    while depth and j < len(nm):
         depth += {"(": 1, ")": -1}.get(nm[j], 0)
         j += 1
     return nm[i + 3:j - 1].endswith("...")
@@ -1012,6 +1020,7 @@ KNOWN = [
     ("C07/calling-convention-placement", "py", "type", _rep_abi),
     ("C07/ellipsis-only", "c", "verdict", _rep_ellipsis_only),
     ("C07/typedef-name-as-variable", "c", "type", _rep_typedef_as_name),
+    ("C07/calling-convention-placement", "c", "type", _rep_abi),
 ]
 OTHER_CLASSES = ["C07/struct-named-by-typedef", "C07/undeclared-tag"]
 CLASSES = {name: (lambda case, name=name: case.get("class") == name)
@@ -1095,6 +1104,13 @@ def classify(s, run, d, model_matches_c):
     return None
 
 
+
+def translators(ctx):
+    sys.path.insert(0, os.path.join(common.VERIF, "translate"))
+    import typenames
+    return [typenames.translate]
+
+
 # --------------------------------------------------------------------------
 # the check
 
@@ -1144,17 +1160,43 @@ def model_vs_c(o, rb, d):
     if mtree != itree:
         return "type trees differ: model %r, implementation %r" % (mtree, itree)
     if not hist and name != rb[1].cname:
-        return "names differ: model %r" % name
+        return ("name", name)
     return None
+
+
+def recheck_names(ctx, pending):
+    """A function type is identified by its decayed parameter types, its name keeps the spelling (`T[10]` or `T *`)
+    of whichever equal type was built first in this process.  A name that differs from the model's must at least
+    denote the same type: the model re-parses it (in the case's context) to the same tree."""
+    lines, exp = [], []
+    for case, rb, d, name in pending:
+        ml = d.model_lines()
+        lines += ml + ["typeof " + hx(rb[1].cname)]
+        exp += [None] * len(ml) + [(case, rb, d, name)]
+    out = ctx.driver(lines) if lines else []
+    for o, e in zip(out, exp):
+        if e is None:
+            continue
+        case, rb, d, name = e
+        w = o.split(" ")
+        ok = w[0] == "ok" and words_tree(w, 4)[0] == ctype_tree(rb[1], d)
+        ctx.count("name-spelling-from-an-earlier-equal-type" if ok else "name-mismatch")
+        if not ok:
+            ctx.disagree(case, rb[1].cname, name, "names differ and the implementation's name does not denote the type")
 
 
 def judge(ctx, out, expect, with_model=True):
     runners = {}
+    pending = []
     for o, e in zip(out, expect):
         if e is None:
             continue
         case, rb, d, why = e
         dis = model_vs_c(o, rb, d)
+        if isinstance(dis, tuple):
+            if with_model:
+                pending.append((case, rb, d, dis[1]))
+            dis = None
         if dis is not None and with_model:
             ctx.disagree(case, show(rb), o, dis)
             if os.environ.get("VERIF_DEBUG"):
@@ -1176,6 +1218,7 @@ def judge(ctx, out, expect, with_model=True):
             if os.environ.get("VERIF_DEBUG"):
                 common.log("FAIL %s" % __import__("json").dumps({"cdef": case["cdef"], "s": case["s"], "why": why}))
             ctx.fail(case, why)
+    recheck_names(ctx, pending)
 
 
 def correspond(ctx):
